@@ -654,6 +654,8 @@ def render_schemas(r, iface):
                 style = rng.choice(["plain", "plain", "tns-default", "xsd-default"])
                 r.prefixes = {j: (base_prefixes[j] if rng.random() < 0.6 else "%s%d" % (rng.choice(["q", "v", "z"]), j))
                               for j in base_prefixes}
+                if rng.random() < 0.3:
+                    r.prefixes[ns] = "tns"       # every schema calls its own target namespace "tns"
                 if n >= 2 and rng.random() < 0.3:
                     # the same prefix names as elsewhere, bound to other namespaces in this block
                     names = [base_prefixes[j] for j in range(n)]
